@@ -204,6 +204,9 @@ func (x *Exec) call(fr *Frame, instr ssa.Instruction, c *ssa.CallCommon, st *Sta
 	if len(x.only) > 0 && callee.Blocks != nil {
 		if len(x.only) == 1 && x.only[0] == "locks" {
 			thinHavoc = !x.eng.touchesLocks(x, callee, 0)
+		} else if !strings.HasPrefix(pkgOf(callee), modPath) {
+			// library function without contract: handled by havocCall (results arbitrary, no effect on klevdb state)
+			return x.havocCall(key, resT, st, reach, pos)
 		} else if hasLoops(callee) || x.depth >= 5 {
 			thinHavoc = true
 			x.sc.note("thin unit: call to %s (loops, no contract) abstracted", key)
